@@ -6,7 +6,11 @@ constants, names of enumerators), enums (enumerator values that are literals, co
 enumerators of other enums), typedefs (of builtins, typedefs, structs, unions, enums), structs and
 messages (members of typedef / enum / struct / union type, array sizes given by constants or
 enumerators) and unions (arms of such types, discriminators given by constants or enumerators) —
-in every document order that isar lets reach the model.
+in every document order that isar lets reach the model. Renderings of the same graph that are varied
+on top: the expression form of constant / enumerator values and discriminators, the array form of
+a size reference (fixed array, limited array = bound + size, size * size2 with the name in either
+attribute, size expression) and of a member type reference (limited array of the type), and the
+shape of the identifiers (plain, leading underscore).
 
 For every input:
   (1) every definition appears exactly once in prophyc's node list, after everything it depends
@@ -52,6 +56,19 @@ for _k, _v in (("C", {"C": ["expr"], "E": ["expr"]}), ("E", {"C": ["value"], "E"
 
 BUILTINS = ["u8", "u16", "u32", "u64", "i32", "r64", "i8", "r32"]
 N_FORMS = 5
+# array forms of a "size" reference (how the struct names the constant / enumerator that sizes its array):
+#   0 fixed array             <dimension size="NAME"/>
+#   1 limited array           <dimension isVariableSize="true" size="NAME"/>  (bound + size; a <message> drops the
+#                             size of such an array, so there it is size="NAME" size2="2" instead); member type
+#                             references of a struct become limited arrays of the type, too
+#   2 name in size2           <dimension size="2" size2="NAME"/>
+#   3 size expression         <dimension size="(NAME + 1)*2"/>
+# (isar passes the size text through unchanged: no shiftLeft()/bitMaskOr() here)
+N_AFORMS = 4
+AFORM_WORD = ["size", "size of a limited array", "size2", "size expression"]
+# identifier styles: 0 plain (K0, E1_A, S2); 1 leading underscore (_K0, _E1_A, _S2)
+N_STYLES = 2
+SYMBOL_FLAVOURS = ("expr", "value", "size", "disc")    # references written as a name inside an expression
 
 
 # ------------------------------------------------------------------------------------------
@@ -103,14 +120,18 @@ class DefSet(object):
     """renders (kinds, edges) into the argument lists of frontends.to_isar_constants and keeps the
     abstract description: names, dependencies, flavours"""
 
-    def __init__(self, kinds, edges, form=0, rng=None, forms=None):
+    def __init__(self, kinds, edges, form=0, rng=None, forms=None, aform=0, style=0, name_rng=None):
         self.allowed_forms = forms       # expression forms to choose from (None: all, see _expr)
         self.kinds = kinds
         self.edges = {(int(a), int(b)): f for (a, b), f in edges.items()}
         self.form = form
+        self.aform = aform               # array form of size references (see N_AFORMS); rng: chosen per member
         self.rng = rng
         n = len(kinds)
-        self.names = [PREFIX[k] + str(i) for i, k in enumerate(kinds)]
+        # identifier style: all names alike, or (name_rng) chosen per definition; enumerators take their enum's
+        lead = ["_" if (name_rng.random() < 0.35 if name_rng is not None else style == 1) else "" for _ in kinds]
+        self.names = [lead[i] + PREFIX[k] + str(i) for i, k in enumerate(kinds)]
+        self.how = {}                    # (i, j) -> wording of a size reference (AFORM_WORD)
         self.env = {}                    # constant / enumerator name -> numeric value
         self.used = set()                # numeric values taken (keeps enumerators / discriminators distinct)
         self.members = {}                # enum index -> [enumerator names]
@@ -229,11 +250,23 @@ class DefSet(object):
         for j in self.deps_of(i):
             fl = self.edges[(i, j)]
             if fl == "size":
-                dim = ("fixed", self._ref_name(i, j))
-                if self.rng is not None and self.rng.random() < 0.3:
-                    dim = ("fixed", dim[1], "2")
-                    if self.kinds[i] == "S" and self.rng.random() < 0.5:     # (<message> drops the limit)
-                        dim = ("limited", dim[1])
+                name = self._ref_name(i, j)
+                aform, lit2 = self.aform, False
+                if self.rng is not None:
+                    r = self.rng.random()
+                    aform = 0 if r < 0.6 else 1 if r < 0.8 else 2 if r < 0.9 else 3
+                    lit2 = r < 0.1
+                if aform == 1 and self.kinds[i] == "M":      # (<message> drops the limit, and the name with it)
+                    aform, lit2 = 0, True
+                if aform == 1:
+                    dim = ("limited", name)
+                elif aform == 2:
+                    dim = ("fixed", "2", name)
+                elif aform == 3:
+                    dim = ("fixed", "(%s + 1)*2" % name)
+                else:
+                    dim = ("fixed", name, "2") if lit2 else ("fixed", name)
+                self.how[(i, j)] = AFORM_WORD[aform]
                 ms.append(("n%d" % j, self._pick(["u8", "u16", "u32"], i + j), dim))
             elif self.dyn[j]:
                 ms.append(("m%d" % j, self.names[j], self._pick([None, "dyn"], i + j)))
@@ -241,6 +274,8 @@ class DefSet(object):
             else:
                 forms = [None, "opt", ("fixed", "2")] + (["dyn", ("limited", "3")] if may_dyn else [])
                 dim = self._pick(forms, i + j)
+                if self.rng is None and self.aform == 1 and self.kinds[i] == "S":
+                    dim = ("limited", "3")
                 if dim == "dyn" or (dim and dim[0] == "limited" and self.kinds[i] == "M"):
                     self.dyn[i] = True
                 ms.append(("m%d" % j, self.names[j], dim))
@@ -299,7 +334,8 @@ class DefSet(object):
 
     def describe(self):
         return [{"kind": KIND_WORD[k], "name": self.names[i], "deps": [self.names[j] for j in self.deps_of(i)],
-                 "refs": {self.names[j]: self.edges[(i, j)] for j in self.deps_of(i)}, "text": self.texts[i]}
+                 "refs": {self.names[j]: self.how.get((i, j), self.edges[(i, j)]) for j in self.deps_of(i)},
+                 "text": self.texts[i]}
                 for i, k in enumerate(self.kinds)]
 
     def orders_exhaustive(self):
@@ -368,6 +404,8 @@ def judge_run(definitions, run):
                 note = ""
                 if d["kind"] == "constant" and kd[dep] == "constant" and re.search(r"[\w)][*/|<>]|[*/|<>][\w(]", d.get("text", "")):
                     note = ", operator written without blanks"
+                if dep.startswith("_") and fl != "type":
+                    note += ", name starts with an underscore"
                 out.append((MISORDER,
                             "%s before the %s it refers to (as %s%s)" % (d["kind"], kd[dep], fl, note),
                             "%s %s is emitted at position %d, before %s %s (position %d) which it uses as %s; output order: %s" % (
@@ -436,10 +474,10 @@ def build_group(spec):
         return spec
     edges = {(i, j): f for i, j, f in spec["edges"]}
     if spec.get("seed") is None:
-        ds = DefSet(spec["kinds"], edges, form=spec.get("form", 0))
+        ds = DefSet(spec["kinds"], edges, form=spec.get("form", 0), aform=spec.get("aform", 0), style=spec.get("style", 0))
         orders = ds.orders_exhaustive()
     else:
-        ds = DefSet(spec["kinds"], edges, rng=random.Random(spec["seed"]))
+        ds = DefSet(spec["kinds"], edges, rng=random.Random(spec["seed"]), name_rng=random.Random(spec["seed"] + 2))
         orng = random.Random(spec["seed"] + 1)
         orders = [list(ds.names)]
         for _ in range(spec.get("norders", 6)):
@@ -625,9 +663,10 @@ def main():
     quick = chk.tier == "quick"
     nmax = 4 if quick else 5
     mmax = 3 if quick else 4
+    vmax = 3 if quick else 4          # array forms / identifier styles are varied up to this many definitions
     n_rand = 60 if quick else 600
     corpus = load_corpus()
-    counts = {"exhaustive": 0, "random": 0, "corpus": 0}
+    counts = {"exhaustive": 0, "random": 0, "corpus": 0, "variants": 0}
 
     def cross_kind(ks, edges):
         return any(ks[i] != ks[j] for (i, j) in edges)
@@ -639,11 +678,26 @@ def main():
             for ks, edges in dag_shapes(n, KINDS if n <= mmax else KINDS[:5]):
                 forms = range(N_FORMS) if n <= 2 and any(f in ("expr", "value", "disc") for f in edges.values()) else [0]
                 el = [[i, j, f] for (i, j), f in sorted(edges.items())]
-                for form in forms:
+                variants = [(form, 0, 0) for form in forms]
+                if n <= vmax:
+                    # the same graph with the other array forms (where a struct has an array size / a member type
+                    # to write differently) and with the other identifier styles (where a name is used in an expression)
+                    if any(f == "size" for f in edges.values()):
+                        variants += [(0, a, 0) for a in range(1, N_AFORMS)]
+                    elif any(ks[i] == "S" for (i, _) in edges):
+                        variants += [(0, 1, 0)]
+                    if any(f in SYMBOL_FLAVOURS for f in edges.values()):
+                        variants += [(form, 0, s) for s in range(1, N_STYLES) for form in forms]
+                        if any(f == "size" for f in edges.values()):
+                            variants += [(0, 1, s) for s in range(1, N_STYLES)]
+                for form, aform, style in variants:
                     counts["exhaustive"] += 1
-                    yield ({"label": "dag:%s:%s:f%d" % (ks, ",".join("%d>%d%s" % (i, j, f[0]) for i, j, f in el), form),
-                            "kinds": ks, "edges": el, "form": form},
-                           ("dag", "".join(sorted(ks)), tuple(sorted((ks[i], ks[j], f) for i, j, f in el))), cross_kind(ks, edges))
+                    counts["variants"] += 1 if (aform or style) else 0
+                    yield ({"label": "dag:%s:%s:f%d%s%s" % (ks, ",".join("%d>%d%s" % (i, j, f[0]) for i, j, f in el), form,
+                                                            ":a%d" % aform if aform else "", ":s%d" % style if style else ""),
+                            "kinds": ks, "edges": el, "form": form, "aform": aform, "style": style},
+                           ("dag", "".join(sorted(ks)), tuple(sorted((ks[i], ks[j], f) for i, j, f in el)), aform, style),
+                           cross_kind(ks, edges))
         # (b) random larger sets: the dependency order itself + 6 random document permutations
         for r in range(n_rand):
             ks, edges = random_shape(rng, rng.randint(6, 12))
@@ -754,13 +808,16 @@ def main():
         "enumerator; enumerator value naming a constant or another enum's enumerator; typedef of typedef/struct/union/enum; "
         "member or arm of typedef/enum/struct/union type; array size or union discriminator given by a constant or an "
         "enumerator), expression forms {bare name, a + b, (a + b) * 2, a*2 without blanks, shiftLeft(), bitMaskOr()} for <= 2 "
-        "definitions, in every permutation within each element kind (isar regroups by kind) plus one interleaved reversed order; "
-        "(b) %d random sets of 6-12 definitions (also dynamic structs, limited arrays, size2) in the dependency order and 6 random "
+        "definitions; for <= %d definitions each graph also with the array sizes written as limited array (bound + size; "
+        "member types as limited arrays of the type), as size2 beside a literal size, as a size expression, and with all "
+        "identifiers starting with an underscore (%d such renderings); in every permutation within each element kind (isar regroups by kind) plus one interleaved reversed order; "
+        "(b) %d random sets of 6-12 definitions (also dynamic structs, limited arrays, size2, size expressions, a third of the "
+        "definitions with a leading underscore) in the dependency order and 6 random "
         "document permutations; (c) corpus/C15. Oracle per input: each definition exactly once and after all definitions it "
         "refers to (dependencies computed by the generator), generated Python module imports, struct/union layout equal to "
         "that of the first order of the same set. Screen in-process, verdicts through frontends.model_of + a fresh interpreter. "
         "sack is not exercised (C++ requires declaration before use, so its definition order cannot be permuted freely)."
-        % (nmax, mmax, n_rand))
+        % (nmax, mmax, vmax, counts["variants"], n_rand))
     for spec in specs.values():
         if spec["label"].startswith("random") or len(spec.get("kinds", "")) >= 4:
             g = build_group(spec)
